@@ -17,8 +17,22 @@ if true; then
          Cancel/TokK.v Cancel/TokKGen.v Cancel/Model.v Alloc/PageK.v Alloc/PageKGen.v Alloc/Model.v"
   for f in $FILES; do cp "$ROOT/coq/$f" "$B/coq/$f"; done
   : > "$B/coqc.log"
+  rm -f "$B/KERNEL_FALLBACK"
   for f in $FILES; do
-    ( cd "$B/coq" && timeout 600 coqc -Q . Salsa "$f" ) >> "$B/coqc.log" 2>&1 || { tail -20 "$B/coqc.log"; exit 1; }
+    if ! ( cd "$B/coq" && timeout 600 coqc -Q . Salsa "$f" ) >> "$B/coqc.log" 2>&1; then
+      case "$f" in
+        Cancel/TokKGen.v|Alloc/PageKGen.v)
+          # an interface lemma over the kernels translated from /repo's CURRENT source no longer
+          # checks (the source changed): that is a broken proof obligation, reported by the check.
+          # To keep searching for a concrete failing input the replayer is built from the
+          # hand-written kernel file (the last semantics the lemmas were proved for).
+          { echo "$f"; tail -15 "$B/coqc.log"; } >> "$B/KERNEL_FALLBACK"
+          if [ "$f" = "Cancel/TokKGen.v" ]; then sed -i 's/Require Export TokKGen\./Require Export TokK./' "$B/coq/Cancel/Model.v";
+          else sed -i 's/Require Export PageKGen\./Require Export PageK./' "$B/coq/Alloc/Model.v"; fi
+          ;;
+        *) tail -20 "$B/coqc.log"; exit 1 ;;
+      esac
+    fi
   done
 fi
 timeout 600 coqc -Q "$Q" Salsa -o "$B/Extract.vo" "$ROOT/coq/Cancel/Extract.v" > extract.log 2>&1 || { tail -20 extract.log; exit 1; }
